@@ -220,7 +220,7 @@ func TestC10Split(t *testing.T) {
 
 // TestC10Sections: the checksum as the section writer and reader use it.
 func TestC10Sections(t *testing.T) {
-	rec := obs.NewRecorder("C10", "sections", "rapid: the checksum where the library uses it: PAT/PMT sections of every size written by writePSIData must end with the bitwise CRC-32/MPEG-2 of the bytes before it (the writer feeds the checksum piecewise); sections of the six table types with arbitrary bodies of 0..1000 bytes and the reference CRC must be accepted by the Demuxer, and rejected when one CRC bit is flipped, including two sections of equal length in a row (pooled buffer reuse); non-trivial = section longer than 64 bytes; distinct by section bytes")
+	rec := obs.NewRecorder("C10", "sections", "rapid: the checksum where the library uses it: PAT/PMT sections of every size written by writePSIData must end with the bitwise CRC-32/MPEG-2 of the bytes before it (the writer feeds the checksum piecewise; 40% after a write of the same section that the writer refused part-way); sections of the six table types with arbitrary bodies of 0..1000 bytes and the reference CRC must be accepted by the Demuxer, and rejected when one CRC bit is flipped, including two sections of equal length in a row (pooled buffer reuse); non-trivial = section longer than 64 bytes; distinct by section bytes")
 	defer rec.Flush()
 	rapid.Check(t, func(t *rapid.T) {
 		// writer
@@ -234,13 +234,22 @@ func TestC10Sections(t *testing.T) {
 				Data:   &astits.PSISectionSyntaxData{PAT: s.PAT, PMT: s.PMT},
 			},
 		}
+		aborted := -1
+		if gen.Chance(t, 40, "abortfirst") {
+			// an earlier write of the section that the writer refuses part-way must not leak into the next checksum
+			aborted = rapid.IntRange(0, len(enc)).Draw(t, "abortat")
+			if _, err := astits.VerifWritePSIData(&refusingWriter{left: aborted}, &astits.PSIData{Sections: []*astits.PSISection{sec}}); err == nil && aborted < len(enc) {
+				t.Fatalf("writePSIData to a writer that accepts %d bytes of %d returned no error", aborted, len(enc)+1)
+			}
+			rec.Class("after_an_aborted_write")
+		}
 		var out bytes.Buffer
 		if _, err := astits.VerifWritePSIData(&out, &astits.PSIData{Sections: []*astits.PSISection{sec}}); err != nil {
 			t.Fatalf("writePSIData: %v", err)
 		}
 		w := out.Bytes()
 		if len(w) < 5 || ref.CRC32MPEG2(w[1:]) != 0 {
-			t.Fatalf("section written by writePSIData (%d bytes) does not end with the CRC-32/MPEG-2 of its bytes: %x", len(w)-1, w)
+			t.Fatalf("section written by writePSIData (%d bytes; previous write aborted after %d bytes, -1 = none) does not end with the CRC-32/MPEG-2 of its bytes: %x", len(w)-1, aborted, w)
 		}
 		// reader: arbitrary bodies, reference CRC; then the same with one CRC bit flipped; twice the same length in a row
 		tb := c03Tables[gen.Uniform(t, 10, "tbl")]
@@ -280,4 +289,17 @@ func TestC10Sections(t *testing.T) {
 			return map[string]interface{}{"written_section_bytes": len(enc), "read_table_id": tb.id, "read_body_bytes": n}
 		})
 	})
+}
+
+// refusingWriter accepts left bytes and then fails.
+type refusingWriter struct{ left int }
+
+func (r *refusingWriter) Write(p []byte) (int, error) {
+	if len(p) > r.left {
+		n := r.left
+		r.left = 0
+		return n, errInjected
+	}
+	r.left -= len(p)
+	return len(p), nil
 }
